@@ -194,6 +194,7 @@ func (d *PathDecoder) decodeReferenceTargetsForBody(body hcl.Body, parentBlock *
 
 			bodyRef.Type = bodyToDataType(bSchema.Type, bSchema.Body)
 
+			sort.Sort(bodyRef.NestedTargets)
 			refs = append(refs, bodyRef)
 		}
 
